@@ -560,6 +560,10 @@ def run(ctx, rep) -> None:
     rep.attempt("assignment_determinism", assignment_determinism, ctx, rep, "C14.1", COPIES)
     rep.attempt("ownership", ownership, ctx, rep, "C14.2", COPIES)
     rep.attempt("state_mesh_layout", state_mesh_layout, ctx, rep, "C14.2")
+    from .c03 import _Proxy
+    from .c17 import _dispatch_tables
+
+    rep.attempt("distributor_dispatch", _dispatch_tables, ctx, _Proxy(rep, "C17.4", "C14.2"), only=("_instantiate_distributor",))
     rep.attempt("sibling_pairs", sibling_pairs, ctx, rep, "C14.3", dist_pairs())
     rep.attempt("buffer_views", buffer_views, ctx, rep, "C14.4", COPIES)
     rep.attempt("split_semantics", split_semantics, ctx, rep, "C14.4", COPIES)
